@@ -443,6 +443,18 @@ func freeLLMNRClient(c *h.Ctx, lg *evLog, queries int, seed int64) error {
 		}
 	}()
 	var wg sync.WaitGroup
+	type kept struct {
+		q, tag int
+		m      *llmnr.Message
+	}
+	var kmu sync.Mutex
+	var keep []kept
+	tagOfMsg := func(m *llmnr.Message) int {
+		if len(m.Answers) == 1 && len(m.Answers[0].RData) == 4 {
+			return int(m.Answers[0].RData[1])<<16 | int(m.Answers[0].RData[2])<<8 | int(m.Answers[0].RData[3])
+		}
+		return -1
+	}
 	for q := 1; q <= queries; q++ {
 		wg.Add(1)
 		go func(q int) {
@@ -452,10 +464,10 @@ func freeLLMNRClient(c *h.Ctx, lg *evLog, queries int, seed int64) error {
 				lg.log(map[string]interface{}{"op": "qtimeout", "q": q})
 				return
 			}
-			t := -1
-			if len(m.Answers) == 1 && len(m.Answers[0].RData) == 4 {
-				t = int(m.Answers[0].RData[1])<<16 | int(m.Answers[0].RData[2])<<8 | int(m.Answers[0].RData[3])
-			}
+			t := tagOfMsg(m)
+			kmu.Lock()
+			keep = append(keep, kept{q: q, tag: t, m: m})
+			kmu.Unlock()
 			lg.log(map[string]interface{}{"op": "qret", "q": q, "id": int(m.ID), "tag": t})
 		}(q)
 		if q%3 == 0 {
@@ -463,6 +475,18 @@ func freeLLMNRClient(c *h.Ctx, lg *evLog, queries int, seed int64) error {
 		}
 	}
 	wg.Wait()
+	// a response handed to a Query belongs to that query: it must still carry the same answer after the client has received
+	// the datagrams of the other queries (the receive loop reuses one buffer)
+	time.Sleep(20 * time.Millisecond)
+	kmu.Lock()
+	for _, k := range keep {
+		if now := tagOfMsg(k.m); now != k.tag {
+			c.Fail("llmnr.Client.Query", "answer-changed-after-return", fmt.Sprintf("query %d returned the response tagged %d; after later datagrams arrived the same message reads %d", k.q, k.tag, now),
+				map[string]interface{}{"queries_in_flight": queries})
+			break
+		}
+	}
+	kmu.Unlock()
 	// Close while a Query is still in flight (no answer will come): the Query must return within its own timeout
 	// (2 s) plus a margin, Close must return at once, and nothing of the package may keep running afterwards.
 	cli2, err := llmnr.NewClient()
